@@ -24,6 +24,28 @@ PROPS = {
         level_note='Assumes the code-object layout of CPython >= 3.8 (precondition wf), co_flags bits through an uninterpreted '
                    'bit_and, Method()/Element.__init__ by an assumed constructor contract, PyPy __defaults_count__ branch excluded.',
     ),
+    'C17': dict(
+        title='verifyObject/verifyClass accept exactly the candidates meeting the contract',
+        contracts=['C17_verify'], falsifier='C17', modes=['py'], level='proof',
+        level_text='_incompat is verified from its real body against the statement\'s own quantified formulation (every '
+                   'positional arity from required to all positional binds, surplus positionals with *args, keywords with '
+                   '**kw) for all signature sizes; _verify is verified to collect exactly the undeclared-interface failure '
+                   'plus every per-element failure in order and to raise the single Invalid / MultipleInvalid listing '
+                   'exactly those. The per-element decision table _verify_element is an assumed contract, checked bounded '
+                   'against inspect.Signature.bind on all signature pairs with <=2 parameters per kind.',
+        level_note='Assumed contracts: _verify_element (bounded), implementedBy/providedBy (C01), namesAndDescriptions (C15), '
+                   'exception constructors. Keyword-only parameters of an implementation are outside the quantifier.',
+    ),
+    'C12': dict(
+        title='Interfaces have a total, hash-consistent, process-independent order',
+        contracts=['C12_order'], falsifier='C12', modes=['py', 'c'], level='proof',
+        level_text='Python reference: _compare, __lt__/__le__/__gt__/__ge__, InterfaceBase.__eq__/__ne__/__hash__ are verified '
+                   'from their real bodies against one key-comparison specification; irreflexivity, trichotomy, transitivity, '
+                   '<= as < or ==, hash consistency are proved as lemmas over that specification for all names. The C '
+                   'rich-compare/hash twins are compared with the same specification bounded (fixed pool incl. non-ASCII '
+                   'names), labelled bounded, until the C front end covers them.',
+        level_note='str comparison enters only as a strict total order (axioms); __name__/__module__ are str; C twin bounded.',
+    ),
 }
 
 # properties not claimed (kept current; see DESIGN.md section 6)
